@@ -8,6 +8,7 @@
 #include <pthread.h>
 #include <functional>
 #include <vector>
+#include <algorithm>
 
 namespace sched {
 using namespace verif;
@@ -40,6 +41,7 @@ struct World {
 	std::vector<const char *> at_site;
 	uint64_t steps = 0, step_limit = 200000;
 	uint64_t progress = 0;            // number of non-spin points executed
+	uint64_t progress_at_forced_unpark = ~0ull;
 	bool aborting = false;
 	Outcome outcome;
 	Strategy *strat = nullptr;
@@ -80,6 +82,18 @@ struct World {
 	// hand the baton on; returns when `me` is scheduled again
 	void reschedule(int me, bool me_enabled) {
 		std::vector<int> en = enabled_set();
+		if(en.empty()) {
+			bool any_blocked = false, any_parked = false;
+			for(int i = 0; i < n; i++) { if(st[i] == WState::Blocked) any_blocked = true; if(st[i] == WState::Parked) any_parked = true; }
+			// Wait loops may have side effects of their own (quiescent_barrier() acks inside its loop): if anything happened since
+			// the last time every worker was parked, let them all go round once more. Two consecutive "everybody parked" states
+			// without a single non-spin step in between are a livelock.
+			if(any_parked && progress != progress_at_forced_unpark) {
+				progress_at_forced_unpark = progress;
+				for(int i = 0; i < n; i++) if(st[i] == WState::Parked) st[i] = WState::Runnable;
+				en = enabled_set();
+			}
+		}
 		if(en.empty()) {
 			bool any_blocked = false, any_parked = false;
 			for(int i = 0; i < n; i++) { if(st[i] == WState::Blocked) any_blocked = true; if(st[i] == WState::Parked) any_parked = true; }
@@ -172,7 +186,7 @@ struct World {
 		sems.resize(n); st.assign(n, WState::Runnable); blocked_on.assign(n, nullptr); at_site.assign(n, "start");
 		for(auto &x : sems) sem_init(&x, 0, 0);
 		sem_init(&done, 0, 0);
-		steps = 0; progress = 0; aborting = false; outcome = {}; sig = 0; switches = 0; trace.clear();
+		steps = 0; progress = 0; progress_at_forced_unpark = ~0ull; aborting = false; outcome = {}; sig = 0; switches = 0; trace.clear();
 		strat = &s; s.begin_run();
 		g_world = this;
 		std::vector<pthread_t> th(n);
@@ -227,11 +241,17 @@ struct Dfs : Strategy {
 	uint64_t runs = 0; bool exhausted = false;
 	size_t max_depth = 0;
 	explicit Dfs(int bound_) : bound(bound_) {}
-	void begin_run() override { depth = 0; preempts = 0; runs++; }
+	std::vector<uint64_t> last_run; uint64_t tick = 0;
+	void begin_run() override { depth = 0; preempts = 0; runs++; last_run.clear(); tick = 0; }
 	int pick(int me, bool me_enabled, const std::vector<int> &en, uint64_t) override {
+		// alternatives are ordered least-recently-run first, so that the default continuation of a schedule is fair
+		// (a worker that only waits cannot starve the one it waits for)
+		std::vector<int> order = en;
+		for(int e : order) if((int)last_run.size() <= e) last_run.resize(e + 1, 0);
+		std::stable_sort(order.begin(), order.end(), [&](int a, int b) { return last_run[a] < last_run[b]; });
 		std::vector<int> opts;
-		if(me_enabled) { opts.push_back(me); if(preempts < bound) for(int e : en) if(e != me) opts.push_back(e); }
-		else opts = en;
+		if(me_enabled) { opts.push_back(me); if(preempts < bound) for(int e : order) if(e != me) opts.push_back(e); }
+		else opts = order;
 		int chosen;
 		if(opts.size() == 1) chosen = opts[0];
 		else {
@@ -247,6 +267,8 @@ struct Dfs : Strategy {
 			if(depth > max_depth) max_depth = depth;
 		}
 		if(me_enabled && chosen != me) preempts++;
+		if((int)last_run.size() <= chosen) last_run.resize(chosen + 1, 0);
+		last_run[chosen] = ++tick;
 		return chosen;
 	}
 	// prepare the next schedule; false when the space is exhausted
@@ -294,7 +316,9 @@ struct SchedMutex {
 		if(owner != me) { violation(g_lock_prop + ":lock:unlock-by-non-owner", "a mutex is unlocked by a worker that does not hold it"); return; }
 		owner = -1; g_smx.held[me]--; g_smx.unlocks++;
 		w->wake(this);
-		w->point("mutex.unlock", this, 0, false);
+		// unlock() is called from guard destructors (noexcept): an abort of the run must not propagate from here;
+		// the worker unwinds at its next scheduling point instead
+		try { w->point("mutex.unlock", this, 0, false); } catch(const Abort &) { }
 	}
 	static int held_by_me() { int me = t_me; return (me >= 0 && me < (int)g_smx.held.size()) ? g_smx.held[me] : 0; }
 };
